@@ -226,7 +226,9 @@ def StageReference(dataReference,  # type: experiment.model.graph.DataReference
                 #(due to charactwise matching performed)
                 target = os.path.join(os.path.realpath(dest), '')
                 for f in tar.getmembers():
-                    newPath = os.path.join(location.path, f.name)
+                    #Expand `..` segments and links that already exist in dest (e.g. staged by other references)
+                    #before comparing - the plain concatenation of dest and f.name trivially starts with dest
+                    newPath = os.path.join(os.path.realpath(os.path.join(target, f.name)), '')
                     #if target includes / then commonprefix will include it
                     if os.path.commonprefix([target, newPath]) != target:
                         raise tarfile.ReadError('Archive contains files that would be extracted outside of destination')
